@@ -826,6 +826,147 @@ theorem integer_boundaries :
     parseCanon (showInt 0) = some 0 ∧ parseCanon (showInt (-1)) = some (-1) ∧
     showInt (-120) = [45, 49, 50, 48] := by decide
 
+/-! ## 7. boundary pins
+
+Where a decision of the model is a comparison, its answer AT equality (and one step to either
+side) is pinned here by concrete instances (`decide`), next to the table theorems above.  The
+harness produces the same three inputs deliberately from the current state of the real executor
+(harness/src/boundary.rs; site × {below, equal, above} counts are in the evidence). -/
+
+/-- k1 = "abc" with deadline 101000, k2 = list [a,b,c], k3 = zset {x:-1, y:2, z:2},
+    k4 = set {7, 9}, k5 = "10", k6 = hash {f ↦ "10"} -/
+def bst : State :=
+  [(1, ⟨.str [97, 98, 99], some 101000⟩), (2, ⟨.list [[97], [98], [99]], none⟩),
+   (3, ⟨.zset [([120], .fin (-1)), ([121], .fin 2), ([122], .fin 2)], none⟩),
+   (4, ⟨.set [(7, ()), (9, ())], none⟩), (5, ⟨.str [49, 48], none⟩),
+   (6, ⟨.hash [(1, [49, 48])], none⟩)]
+
+def fGT : ExpFlags := ⟨false, false, true, false⟩
+def fLT : ExpFlags := ⟨false, false, false, true⟩
+def fNone : ExpFlags := ⟨false, false, false, false⟩
+
+/-- EXPIRE … GT whose new deadline EQUALS the current one replies 0 and changes nothing
+    (now = 1000, deadline 101000 = 1000 + 100·1000); one second less: 0; one more: 1 -/
+theorem expire_gt_equal_replies_zero :
+    (step bst 1000 (.expire 1 100 fGT)).2 = .int 0 ∧
+    view (step bst 1000 (.expire 1 100 fGT)).1 1000 = view bst 1000 ∧
+    (step bst 1000 (.expire 1 99 fGT)).2 = .int 0 ∧
+    (step bst 1000 (.expire 1 101 fGT)).2 = .int 1 ∧
+    -- 40 s later, 60 s left: EXPIRE 60 GT lands on the same deadline again
+    (step bst 41000 (.expire 1 60 fGT)).2 = .int 0 ∧
+    (step bst 41000 (.expire 1 61 fGT)).2 = .int 1 := by decide
+
+theorem expire_lt_equal_replies_zero :
+    (step bst 1000 (.expire 1 100 fLT)).2 = .int 0 ∧
+    (step bst 1000 (.expire 1 99 fLT)).2 = .int 1 ∧
+    (step bst 1000 (.expire 1 101 fLT)).2 = .int 0 := by decide
+
+theorem pexpire_gt_lt_at_equality :
+    (step bst 1000 (.pexpire 1 100000 fGT)).2 = .int 0 ∧
+    (step bst 1000 (.pexpire 1 100001 fGT)).2 = .int 1 ∧
+    (step bst 1000 (.pexpire 1 99999 fGT)).2 = .int 0 ∧
+    (step bst 1000 (.pexpire 1 100000 fLT)).2 = .int 0 ∧
+    (step bst 1000 (.pexpire 1 99999 fLT)).2 = .int 1 ∧
+    (step bst 1000 (.pexpire 1 100001 fLT)).2 = .int 0 := by decide
+
+/-- a requested deadline equal to `now` has already been reached: the key is deleted (reply 1) -/
+theorem expire_deadline_at_now_deletes :
+    (step bst 1000 (.pexpire 5 0 fNone)).2 = .int 1 ∧ visible (step bst 1000 (.pexpire 5 0 fNone)).1 1000 5 = false ∧
+    visible (step bst 1000 (.pexpire 5 1 fNone)).1 1000 5 = true ∧
+    visible (step bst 1000 (.pexpire 5 (-1) fNone)).1 1000 5 = false ∧
+    visible (step bst 1000 (.pexpireat 5 1000 fNone)).1 1000 5 = false ∧
+    visible (step bst 1000 (.pexpireat 5 1001 fNone)).1 1000 5 = true ∧
+    visible (step bst 2000 (.expireat 5 2 fNone)).1 2000 5 = false ∧
+    visible (step bst 1999 (.expireat 5 2 fNone)).1 1999 5 = true := by decide
+
+/-- SET / GETEX expire argument: 0 is invalid, 1 is valid; PXAT = now stores a key nobody sees -/
+theorem set_expire_arg_boundaries :
+    (step bst 1000 (.set 9 [118] .always (.px 0) false)).2 = .err .invalidExpire ∧
+    (step bst 1000 (.set 9 [118] .always (.px 1) false)).2 = .ok ∧
+    (step bst 1000 (.set 9 [118] .always (.ex 0) false)).2 = .err .invalidExpire ∧
+    (step bst 1000 (.set 9 [118] .always (.exat 0) false)).2 = .err .invalidExpire ∧
+    (step bst 1000 (.set 9 [118] .always (.pxat 1000) false)).2 = .ok ∧
+    visible (step bst 1000 (.set 9 [118] .always (.pxat 1000) false)).1 1000 9 = false ∧
+    visible (step bst 1000 (.set 9 [118] .always (.pxat 1001) false)).1 1000 9 = true ∧
+    (step bst 1000 (.set 9 [118] .always (.ex 9223372036854775) false)).2 = .err .invalidExpire ∧
+    (step bst 1000 (.set 9 [118] .always (.px (9223372036854775807 - 1000)) false)).2 = .ok ∧
+    (step bst 1000 (.set 9 [118] .always (.px (9223372036854775807 - 999)) false)).2 = .err .invalidExpire ∧
+    (step bst 1000 (.getex 5 (.px 0))).2 = .err .invalidExpire ∧
+    (step bst 1000 (.getex 5 (.px 1))).2 = .bulk [49, 48] := by decide
+
+/-- TTL = (ms + 500) / 1000 at 499 / 500 / 501 and 1499 / 1500 / 1501 ms -/
+theorem ttl_rounding_boundaries :
+    (step bst 100501 (.ttl 1)).2 = .int 0 ∧ (step bst 100500 (.ttl 1)).2 = .int 1 ∧
+    (step bst 100499 (.ttl 1)).2 = .int 1 ∧ (step bst 99501 (.ttl 1)).2 = .int 1 ∧
+    (step bst 99500 (.ttl 1)).2 = .int 2 ∧ (step bst 99499 (.ttl 1)).2 = .int 2 ∧
+    (step bst 0 (.expiretime 1)).2 = .int 101 := by decide
+
+theorem visibility_boundaries :
+    visible bst 100999 1 = true ∧ visible bst 101000 1 = false ∧ visible bst 101001 1 = false ∧
+    (step bst 100999 (.get 1)).2 = .bulk [97, 98, 99] ∧ (step bst 101000 (.get 1)).2 = .nil := by decide
+
+/-- GETRANGE on "abc": start / end at len, −len and at each other -/
+theorem getrange_boundaries :
+    (step bst 0 (.getrange 1 2 (-1))).2 = .bulk [99] ∧ (step bst 0 (.getrange 1 3 (-1))).2 = .bulk [] ∧
+    (step bst 0 (.getrange 1 4 (-1))).2 = .bulk [] ∧
+    (step bst 0 (.getrange 1 0 2)).2 = .bulk [97, 98, 99] ∧ (step bst 0 (.getrange 1 0 3)).2 = .bulk [97, 98, 99] ∧
+    (step bst 0 (.getrange 1 (-3) (-1))).2 = .bulk [97, 98, 99] ∧ (step bst 0 (.getrange 1 (-4) (-1))).2 = .bulk [97, 98, 99] ∧
+    (step bst 0 (.getrange 1 (-2) (-1))).2 = .bulk [98, 99] ∧
+    (step bst 0 (.getrange 1 0 (-3))).2 = .bulk [97] ∧ (step bst 0 (.getrange 1 0 (-4))).2 = .bulk [97] ∧
+    (step bst 0 (.getrange 1 1 1)).2 = .bulk [98] ∧ (step bst 0 (.getrange 1 2 1)).2 = .bulk [] ∧
+    (step bst 0 (.getrange 1 (-1) (-2))).2 = .bulk [] ∧ (step bst 0 (.getrange 1 (-2) (-2))).2 = .bulk [98] := by decide
+
+/-- list indices at len and −len -/
+theorem list_index_boundaries :
+    (step bst 0 (.lindex 2 2)).2 = .bulk [99] ∧ (step bst 0 (.lindex 2 3)).2 = .nil ∧
+    (step bst 0 (.lindex 2 (-3))).2 = .bulk [97] ∧ (step bst 0 (.lindex 2 (-4))).2 = .nil ∧
+    (step bst 0 (.lset 2 3 [1])).2 = .err .indexRange ∧ (step bst 0 (.lset 2 (-3) [1])).2 = .ok ∧
+    (step bst 0 (.lset 2 (-4) [1])).2 = .err .indexRange ∧
+    (step bst 0 (.lrange 2 2 (-1))).2 = .arr [.bulk [99]] ∧ (step bst 0 (.lrange 2 3 (-1))).2 = .arr [] ∧
+    (step bst 0 (.lrange 2 0 (-3))).2 = .arr [.bulk [97]] ∧ (step bst 0 (.lrange 2 0 (-4))).2 = .arr [] ∧
+    (step bst 0 (.lrange 2 (-4) 0)).2 = .arr [.bulk [97]] ∧ (step bst 0 (.lrange 2 1 1)).2 = .arr [.bulk [98]] ∧
+    (step bst 0 (.lrange 2 2 1)).2 = .arr [] ∧
+    NMap.get (step bst 0 (.ltrim 2 3 (-1))).1 2 = none ∧
+    NMap.get (step bst 0 (.ltrim 2 2 (-1))).1 2 = some ⟨.list [[99]], none⟩ := by decide
+
+/-- score ranges at the score of a member (2 is held by two members, −1 by one), inclusive and
+    exclusive; LIMIT offsets at 0 and at the result size -/
+theorem zrange_score_boundaries :
+    (step bst 0 (.zcount 3 (some ⟨false, .fin 2⟩) (some ⟨false, .pinf⟩))).2 = .int 2 ∧
+    (step bst 0 (.zcount 3 (some ⟨true, .fin 2⟩) (some ⟨false, .pinf⟩))).2 = .int 0 ∧
+    (step bst 0 (.zcount 3 (some ⟨true, .fin 1⟩) (some ⟨false, .pinf⟩))).2 = .int 2 ∧
+    (step bst 0 (.zcount 3 (some ⟨false, .fin 3⟩) (some ⟨false, .pinf⟩))).2 = .int 0 ∧
+    (step bst 0 (.zcount 3 (some ⟨false, .ninf⟩) (some ⟨false, .fin (-1)⟩))).2 = .int 1 ∧
+    (step bst 0 (.zcount 3 (some ⟨false, .ninf⟩) (some ⟨true, .fin (-1)⟩))).2 = .int 0 ∧
+    (step bst 0 (.zcount 3 (some ⟨false, .ninf⟩) (some ⟨true, .fin 2⟩))).2 = .int 1 ∧
+    (step bst 0 (.zcount 3 (some ⟨true, .pinf⟩) (some ⟨false, .pinf⟩))).2 = .int 0 ∧
+    (step bst 0 (.zrangebyscore 3 (some ⟨false, .ninf⟩) (some ⟨false, .pinf⟩) false (some (3, 5)))).2 = .arr [] ∧
+    (step bst 0 (.zrangebyscore 3 (some ⟨false, .ninf⟩) (some ⟨false, .pinf⟩) false (some (2, 5)))).2 = .arr [.bulk [122]] ∧
+    (step bst 0 (.zrangebyscore 3 (some ⟨false, .ninf⟩) (some ⟨false, .pinf⟩) false (some (-1, 5)))).2 = .arr [] ∧
+    (step bst 0 (.zrangebyscore 3 (some ⟨false, .ninf⟩) (some ⟨false, .pinf⟩) false (some (0, 0)))).2 = .arr [] := by decide
+
+/-- ZADD GT / LT with a score EQUAL to the current one change nothing (and CH counts nothing) -/
+theorem zadd_equal_score_boundaries :
+    (step bst 0 (.zadd 3 ⟨false, false, true, false, true⟩ [([121], .fin 2)])).2 = .int 0 ∧
+    (step bst 0 (.zadd 3 ⟨false, false, true, false, true⟩ [([121], .fin 3)])).2 = .int 1 ∧
+    (step bst 0 (.zadd 3 ⟨false, false, true, false, true⟩ [([121], .fin 1)])).2 = .int 0 ∧
+    (step bst 0 (.zadd 3 ⟨false, false, false, true, true⟩ [([121], .fin 2)])).2 = .int 0 ∧
+    (step bst 0 (.zadd 3 ⟨false, false, false, true, true⟩ [([121], .fin 1)])).2 = .int 1 ∧
+    (step bst 0 (.zadd 3 ⟨false, false, false, false, true⟩ [([121], .fin 2)])).2 = .int 0 ∧
+    view (step bst 0 (.zadd 3 ⟨false, false, true, false, true⟩ [([121], .fin 2)])).1 0 = view bst 0 := by decide
+
+/-- INCRBY / HINCRBY exactly up to i64::MAX succeed, one more overflows; SPOP count = card empties the key -/
+theorem integer_and_count_boundaries :
+    (step bst 0 (.incrby 5 (9223372036854775807 - 10))).2 = .int 9223372036854775807 ∧
+    (step bst 0 (.incrby 5 (9223372036854775807 - 9))).2 = .err .overflow ∧
+    (step bst 0 (.decrby 5 (10 + 9223372036854775807))).2 = .int (-9223372036854775807) ∧
+    (step bst 0 (.hincrby 6 1 (9223372036854775807 - 10))).2 = .int 9223372036854775807 ∧
+    (step bst 0 (.hincrby 6 1 (9223372036854775807 - 9))).2 = .err .overflow ∧
+    (step bst 0 (.decrby 5 i64Min)).2 = .err .overflow ∧
+    NMap.get (step bst 0 (.spop 4 (some 2) [7, 9])).1 4 = none ∧
+    NMap.get (step bst 0 (.spop 4 (some 1) [7])).1 4 = some ⟨.set [(9, ())], none⟩ ∧
+    (step bst 0 (.spop 4 (some 0) [])).2 = .arr [] := by decide
+
 /-! ## non-vacuity -/
 
 /-- a reachable state with a deadline: SET a "10" PX 1500 at t=1000, RPUSH-like states come with
